@@ -53,6 +53,13 @@ Stdout(marker) ==
   /\ wrote' = <<>> /\ Settle(res, stage)
   /\ UNCHANGED <<dirKind, dirExists, stage, subscribed, owned, saw100, res, tmo, terms, exited>>
 
+\* the child writes to stderr: the launcher closes its end of the child's pipes (kill_on_stderr) - that alone
+\* decides nothing: Tor ignores SIGPIPE; the outcome still comes from progress, the timeout or the exit
+Stderr ==
+  /\ ~exited
+  /\ wrote' = <<>> /\ Settle(res, stage)
+  /\ UNCHANGED <<dirKind, dirExists, attempted, conn, stage, subscribed, owned, saw100, res, tmo, terms, exited>>
+
 \* the control connection is established and authenticates (or fails to)
 Connect(how) ==
   /\ conn = "pending" /\ how \in {"ok", "authfail", "refused"}
@@ -97,6 +104,7 @@ Exit ==
 Next ==
   /\ steps < MaxSteps
   /\ \/ \E m \in BOOLEAN : Stdout(m)
+     \/ Stderr
      \/ \E h \in {"ok", "authfail", "refused"} : Connect(h)
      \/ \E ok \in BOOLEAN : CtlReply(ok)
      \/ \E p \in {10, 50, 100} : Progress(p)
